@@ -2,7 +2,7 @@
    Sync/Sync.v: one synchronisation round (walk back from the tip, then ascending requests) and
    the multi-round state machine with triggers, the restart flag, successes, failed attempts and
    the orphan poll.  Histories are arbitrary event lists; every chain in them has distinct hashes. *)
-From BR Require Import Base.Prelude Sync.Sync Sync.SyncProofs.
+From BR Require Import Base.Prelude Sync.Sync Sync.SyncProofs Sync.SyncComplete.
 Open Scope N_scope.
 
 (* one round: the planned blocks are the best-chain blocks of their heights, at or above the start
@@ -62,6 +62,33 @@ Theorem C05_orphan_abandoned : forall start s h x r, s_mode s = Some ((h, x) :: 
      s_mode s' = match plan (s_chain s) start (s_proc s) with [] => None | p => Some p end).
 Proof. exact orphan_abandoned. Qed.
 Print Assumptions C05_orphan_abandoned.
+
+(* completeness of a round ("... up to the tip"): from an idle reader, with the best chain fixed
+   and every download eventually succeeding - whatever pattern of failed attempts (no node, node
+   drops mid-block, wrong block) and of late completion callbacks of earlier downloads is
+   interleaved - the round started by a trigger requests exactly its plan, in that order, records
+   exactly those blocks as processed, in that order, and ends; with C05_round_plan: every
+   best-chain block from the start height (or from right above the most recent processed block)
+   up to the tip, contiguous and ascending *)
+Theorem C05_round_completes : forall start s es, s_mode s = None -> s_flag s = false ->
+  let pl := plan (s_chain s) start (s_proc s) in
+  filter (fun e => negb (is_stutter e)) es = ETrigger :: repeat ESuccess (length pl) ->
+  let r := srun start s es in
+  s_chain (fst r) = s_chain s /\ s_proc (fst r) = s_proc s ++ map snd pl /\
+  s_mode (fst r) = None /\
+  requests_of (snd r) = map snd pl /\ processed_of (snd r) = map snd pl.
+Proof. exact round_completes_despite_failures. Qed.
+Print Assumptions C05_round_completes.
+
+(* non-vacuity: chain of 6, start height 2, block 102 processed: the plan is 103, 104, 105; two
+   failed attempts and a late callback in between change nothing *)
+Example C05_round_completes_example :
+  let s := sinit [100; 101; 102; 103; 104; 105] [102] in
+  let es := [ETrigger; EFail; ESuccess; ELate; EFail; ESuccess; ESuccess] in
+  map snd (plan (s_chain s) 2 (s_proc s)) = [103; 104; 105] /\
+  filter (fun e => negb (is_stutter e)) es = ETrigger :: repeat ESuccess 3 /\
+  s_proc (fst (srun 2 s es)) = [102; 103; 104; 105].
+Proof. cbv zeta. repeat split; vm_compute; reflexivity. Qed.
 
 (* non-vacuity: a history with a success, a failed attempt, new headers, a reorg of the pending
    block, the poll and the follow-up round *)
